@@ -558,6 +558,12 @@ static srtp_err_status_t srtp_valid_policy(const srtp_policy_t *policy)
         return srtp_err_status_bad_param;
     }
 
+    /* authentication tags are staged in buffers of SRTP_MAX_TAG_LEN octets */
+    if (policy->rtp.auth_tag_len > SRTP_MAX_TAG_LEN ||
+        policy->rtcp.auth_tag_len > SRTP_MAX_TAG_LEN) {
+        return srtp_err_status_bad_param;
+    }
+
     if (policy->key == NULL) {
         if (policy->num_master_keys <= 0) {
             return srtp_err_status_bad_param;
@@ -1262,6 +1268,13 @@ srtp_err_status_t srtp_stream_init_keys(srtp_session_keys_t *session_keys,
     rtp_base_key_len =
         base_key_length(session_keys->rtp_cipher->type, rtp_keylen);
     rtp_salt_len = rtp_keylen - rtp_base_key_len;
+
+    /* all derived keys are staged in tmp_key */
+    if (rtp_keylen > MAX_SRTP_KEY_LEN || rtcp_keylen > MAX_SRTP_KEY_LEN ||
+        srtp_auth_get_key_length(session_keys->rtp_auth) > MAX_SRTP_KEY_LEN ||
+        srtp_auth_get_key_length(session_keys->rtcp_auth) > MAX_SRTP_KEY_LEN) {
+        return srtp_err_status_bad_param;
+    }
 
     /*
      * We assume that the `key` buffer provided by the caller has a length
